@@ -15,7 +15,10 @@ import (
 )
 
 func init() {
-	props["C06"] = func(c *Collector, tier string, seed int64) { runRunnerProp(c, "C06", tier, seed) }
+	props["C06"] = func(c *Collector, tier string, seed int64) {
+		runRunnerProp(c, "C06", tier, seed)
+		repeatedVariationCases(c)
+	}
 	props["C07"] = func(c *Collector, tier string, seed int64) { runRunnerProp(c, "C07", tier, seed) }
 }
 
@@ -509,4 +512,55 @@ func runRunnerProp(col *Collector, focus, tier string, seed int64) {
 		runCliTargets(col, focus, tier, rng)
 	}
 	col.res.Exhaustive = true
+}
+
+// variation lists that contain the same map more than once (or several empty maps): every ENTRY of the list is
+// one pass over the commands, in declared order - equal entries are not merged
+func repeatedVariationCases(col *Collector) {
+	lists := [][]map[string]string{
+		{{"V": "a"}, {"V": "b"}, {"V": "a"}},
+		{{"V": "a"}, {"V": "a"}},
+		{{}, {}},
+		{{"V": "a"}, {}, {"V": "a"}, {}},
+		{{"V": "a", "W": "1"}, {"W": "1", "V": "a"}, {"V": "a", "W": "2"}},
+	}
+	for _, vars := range lists {
+		for _, nCmds := range []int{1, 2} {
+			trace := newTracePath()
+			t := task.NewTask()
+			t.Name = "rep"
+			t.Variations = vars
+			for j := 0; j < nCmds; j++ {
+				t.Commands = append(t.Commands, fmt.Sprintf("echo \"m-${V:-none}-${W:-none}.%d\" >> %s", j, trace))
+			}
+			var want []string
+			for _, v := range vars {
+				get := func(k string) string {
+					if x, ok := v[k]; ok {
+						return x
+					}
+					return "none"
+				}
+				for j := 0; j < nCmds; j++ {
+					want = append(want, fmt.Sprintf("m-%s-%s.%d", get("V"), get("W"), j))
+				}
+			}
+			cs := Case{Replay: fmt.Sprintf("variations %v with %d commands", vars, nCmds), Tags: []string{"repeated-variations"}, NonTrivial: true}
+			r, err := runner.NewTaskRunner()
+			if err != nil {
+				cs.Fail, cs.Sig = err.Error(), "runner-panic"
+				col.Add(cs)
+				continue
+			}
+			r.Stdout, r.Stderr = devNull{}, devNull{}
+			rerr := r.Run(t)
+			got := readTrace(trace)
+			os.Remove(trace)
+			cs.Impl = strings.Join(got, ",")
+			if rerr != nil || strings.Join(got, ",") != strings.Join(want, ",") {
+				cs.Fail, cs.Sig = fmt.Sprintf("commands that ran: %v (error %v), the task definition prescribes %v", got, rerr, want), "c06-trace"
+			}
+			col.Add(cs)
+		}
+	}
 }
